@@ -69,6 +69,21 @@ def stencil_records(ctx, rng, nid):
         except Exception as e:
             out = {'raised': type(e).__name__}
         recs.append({'id': 'grad-%d' % next(nid), 'op': 'grad', 'site': 'Godambe.get_grad', 'in': inp, 'out': out})
+        if k % 6 == 0:
+            # parameter vectors given as Python ints / an integer array (a start point such as [2, 1]): same values, same stencil
+            pi = [rng.randint(1, 4) for _ in range(n)]
+            inp2 = dict(inp, p=rats([float(v) for v in pi]), inttype=True)
+            for tag, arg in (('list', list(pi)), ('array', np.array(pi))):
+                try:
+                    out = {'g': rats(np.asarray(Godambe.get_grad(f, arg, eps), dtype=float).ravel())}
+                except Exception as e:
+                    out = {'raised': type(e).__name__}
+                recs.append({'id': 'grad-%d' % next(nid), 'op': 'grad', 'site': 'Godambe.get_grad', 'in': inp2, 'out': out})
+                try:
+                    out = {'H': rats(np.asarray(Godambe.get_hess(f, arg, eps), dtype=float))}
+                except Exception as e:
+                    out = {'raised': type(e).__name__}
+                recs.append({'id': 'hess-%d' % next(nid), 'op': 'hess', 'site': 'Godambe.get_hess', 'in': inp2, 'out': out})
     return recs
 
 
